@@ -25,6 +25,24 @@ CLAIMED = {
                 ref='DESIGN.md section 9 C11', technique=CORR, note='Parametric in the matcher semantics.'),
     'C12': dict(text='Machine-checked single-step law of join+simplify (alternatives and exclusions are concatenated, always-true alternatives dropped once a specific one is present, constants replace) and idempotence of simplify (kept parts keep their meaning). The multi-step accumulate formula is obtained by iterating the step law; it is not stated as one closed theorem. Tied to matcher.join/parse_and_join by chained filter/breakpoint command sessions.',
                 ref='DESIGN.md section 9 C12', technique=CORR, note='partial: closed-form statement over whole command histories not proved.'),
+    'C01': dict(text='Machine-checked round trip: for every message in the domain of C01 and every combination of the dialect switches, decoding libwayland\'s rendering of the message gives exactly the message it denotes (decode_render), arguments never split or merge (split_render), each kind is recognised as itself (argument_render), a line without `[` is never a message. Render is libwayland\'s printer transcribed; Decode models parse.py\'s regexes by scanners; tied to /repo by generated wire messages rendered by the model and decoded by parse.message, mutated lines, and the shipped sample logs.',
+                ref='DESIGN.md section 9 C01', technique=CORR, note='libwayland printer transcribed (not installed here); scanners vs Python re validated differentially; non-ASCII outside strings and floats beyond 15 significant digits out of model. Three defects fixed in /repo (D1, D2, D3).'),
+    'C07': dict(text='Machine-checked generic theorems (highest version wins and the winning version is order-independent, positional argument lookup, bind exemption, unknown interfaces undecorated, enum decoding exact for plain and bitfield enums, literal spellings) plus finite theorems by computation over the REGENERATED shipped data (no duplicate argument names, no conflicting request/event names, every enum reference and hand-applied tag resolves). Tie: translator regenerates Gen/ShippedDB.v from the XML and load_all()\'s ast on every run; exhaustive comparison of the loaded dictionary and of every lookup against /repo.',
+                ref='DESIGN.md section 9 C07', technique='Coq proof + translator-regenerated data (finite theorems re-checked every run) + exhaustive lookup correspondence', note='xml parsers and int(x,0) trusted; translator is fail-closed on unknown constructs in load_all.'),
+    'C09': dict(text='Machine-checked: a well-formed closure (any signature over iufsonah with version prefix and ? markers, arrays of any length anywhere) is extracted to exactly one argument per type code in order (extract_exact), and in everything libwayland\'s print-out retains GDB mode agrees with what log mode decodes from that print-out (gdb_agrees_with_log, via C01\'s decode_render). Tied to extract.py by running the real extract functions on a fake gdb.Value graph with libwayland\'s struct layout, and by decoding the model-rendered print-out with parse.message.',
+                ref='DESIGN.md section 9 C09', technique=CORR, note='gdb Python API replaced by harness/fakegdb; known finding D5 (NULL string); defect D4 fixed in /repo.'),
+    'C10': dict(text='Machine-checked: the value returned to GDB by stop() is true iff the message is on the selected connection (or none selected) and matches the breakpoint matcher in force; after a command GDB continues iff it resolves to resume, quits iff quit, otherwise stays halted; run_until_stopped prompts exactly until the first line resolving to resume/quit. Tied to plugin.py / PersistentUIState / TerminalUI by driving the real Plugin (its own Breakpoint.stop and Command.invoke methods) under the fake gdb.',
+                ref='DESIGN.md section 9 C10', technique=CORR, note='gdb Python API replaced by harness/fakegdb.'),
+    'C13': dict(text='PARTIAL proof + exploration: proved is what a model can carry (spawn spec: argv verbatim, WAYLAND_DEBUG=1, other variables untouched, stdout inherited; chunk-independent lossless line reassembly; display is a fold of the lines; exit status is the child\'s). The runtime substance (real pipes, threads, buffering, exit codes) is explored by running main.py as a process in -l/-p/-r on generated schedules and comparing displays, argv/env seen by the program, stdout marker and exit status.',
+                ref='DESIGN.md section 9 C13', technique='Coq proof of the modelled part + process-level differential exploration across the three modes', note='runtime behaviours outside the model: TextIOWrapper reassembly, OS pipe buffering, thread scheduling, exit codes. Defect D12 fixed in /repo.'),
+    'C15': dict(text='Machine-checked: destroying any connection (known, closed, never seen) raises nothing, returns False, closes at most that connection and leaves all others untouched; a message never disturbs a connection at another address; (re)opening yields a fresh connection with the next name and an empty table; names stay sequential over any gdb event sequence. Tied to plugin.py by event sequences through the real plugin under the fake gdb.',
+                ref='DESIGN.md section 9 C15', technique=CORR, note='foreign-thread warning is compared, not proved state-independent. Defect D6 fixed in /repo.'),
+    'C17': dict(text='Machine-checked: color() with colour off is the identity; with colour on what it adds is exactly what no_color removes for any continuation; repr never emits ESC; for every message line (all argument kinds, labels, destroyed annotation, unresolved objects) coloured-stripped = uncoloured and the uncoloured line is ESC-free; parse only looks at the stripped text. The whole-session statement (every notice and command output) is checked directly on /repo by running each session under both settings.',
+                ref='DESIGN.md section 9 C17', technique=CORR + ' + metamorphic check of the property itself on /repo', note='whole-session colour theorem not proved; explored.'),
+    'C18': dict(text='PARTIAL: proved for the exception sources the model contains (matcher.parse raises only RuntimeError; evaluation/printing/commands are total; EOF prints only close notices). Unmodelled exception sources are searched by exploration: arbitrary/mutated/undecodable bytes through the file path of main.py in-process and main.py as a process in three modes, arbitrary matcher text evaluated and printed, arbitrary command lines against random session states.',
+                ref='DESIGN.md section 9 C18', technique='Coq proof (partial) + malformed-stream exploration', note='known finding D9 (recursion on hundreds of `w` prefixes); D7, D8 fixed in /repo.'),
+    'C19': dict(text='Machine-checked: the first marker (exact spelling or last letter of a cluster) splits argv, everything after it is forwarded verbatim whatever it looks like, a marker letter inside a cluster is an error, exactly one mode is selected, and every ASCII word written into the gdb python command as a literal evaluates back to itself. Tied to arguments.py/runner.py by generated argument vectors through _split_command, parse_args, run_gdb (Popen intercepted, python command executed by a real interpreter) and main.py -r with an argv-printing helper.',
+                ref='DESIGN.md section 9 C19', technique=CORR, note='argparse not modelled beyond exact option spellings with separate values (others out of model). Defect D10 fixed in /repo.'),
     'C14': dict(text='Machine-checked proof that the letter codec is a bijection between indexes and non-empty lower-case words '
                      '(both round trips, odometer successor, injectivity of id+letters labels and of connection names), for every '
                      'index with no bound; model tied to core/letter_id_generator.py by exhaustive (3/4 letters) + sampled correspondence '
